@@ -186,3 +186,19 @@ Theorem C07_src_best_1_donor : forall cur best pop F ds d ds',
     Forall (fun v => (0 <= v < Z.of_nat (length pop))%Z) rs /\ d = donor_of 0 cur best pop F rs.
 Proof. exact src_best_1_donor. Qed.
 Print Assumptions C07_src_best_1_donor.
+
+Theorem C07_code_current_to_pbest : forall cur pop pbest F archive ds,
+  valid_draws ds -> (0 < length pop)%nat ->
+  uniform_rows (length cur) pop -> uniform_rows (length cur) archive ->
+  Forall (fun v => (0 <= v < Z.of_nat (length pop))%Z) pbest ->
+  py_current_to_pbest_1_archive_p_min cur pop pbest F archive ds = current_to_pbest cur pop pbest F archive ds.
+Proof. exact code_current_to_pbest. Qed.
+Print Assumptions C07_code_current_to_pbest.
+
+Theorem C07_src_current_to_pbest_shape : forall cur pop pbest F archive ds d ds',
+  valid_draws ds -> (0 < length pop)%nat ->
+  uniform_rows (length cur) pop -> uniform_rows (length cur) archive ->
+  Forall (fun v => (0 <= v < Z.of_nat (length pop))%Z) pbest ->
+  py_current_to_pbest_1_archive_p_min cur pop pbest F archive ds = Some (d, ds') -> length d = length cur.
+Proof. exact src_current_to_pbest_shape. Qed.
+Print Assumptions C07_src_current_to_pbest_shape.
